@@ -219,6 +219,9 @@ func genLinearRealistic(r *kit.Rng) *in {
 		x.Per = r.PickI64([]int64{1000000, 60000000000})
 	}
 	x.Freq = r.Range(1, int64(1)<<uint(r.Pick(17)+1))
+	if r.Chance(0.03) { // around and above one hit per nanosecond
+		x.Per, x.Freq = r.PickI64([]int64{1, 10, 100}), r.Range(1, 300)
+	}
 	b := float64(x.Freq) / float64(x.Per) * 1e9
 	var a float64
 	switch r.Pick(8) {
